@@ -36,7 +36,7 @@ namespace {
 struct Cover {
     uint64_t concurrentSubmits = 0, startFailuresInjected = 0, expiringPrograms = 0, updates = 0;
     uint64_t programs = 0, ops = 0, submitted = 0, ran = 0, dropped = 0, stops = 0, clears = 0, drains = 0, restarts = 0, closures = 0;
-    uint64_t stopsWithRunningTask = 0, clearsWithRunningTask = 0, stopsWithWorkerInPreBlock = 0, singleWorkerPrograms = 0, maxWorkersSeen = 0, nontrivialCases = 0;
+    uint64_t stopsWithRunningTask = 0, clearsWithRunningTask = 0, stopsWithWorkerInPreBlock = 0, singleWorkerPrograms = 0, hugeMaximumPrograms = 0, maxWorkersSeen = 0, nontrivialCases = 0;
     std::vector<uint64_t> fps;
     std::vector<std::string> samples;
 } C;
@@ -387,6 +387,8 @@ struct Program {
     void run(int steps) {
         if (rng.chance(130)) return runExpiring(steps);
         maxThreads = (int) std::vector<int>{1, 1, 2, 3, 4, 8}[rng.below(6)];
+        // "every maximum thread count >= 1": now and then a huge one (the number of workers is still bounded by the tasks)
+        if (rng.chance(60)) { maxThreads = std::vector<int>{255, 256, 65535, 65536, 65537, 131072, 1 << 20, 1 << 24, 0x7fffffff}[rng.below(9)]; ++C.hugeMaximumPrograms; }
         if (maxThreads == 1) ++C.singleWorkerPrograms;
         pool = new ThreadPool();
         pool->setExpiryTimeout(-1);     // non-expiring workers
@@ -501,7 +503,7 @@ int main(int argc, char **argv) {
     rt::finish(rt::Json().kv("engine", "h_pool").kv("programs", C.programs).kv("ops", C.ops).kv("tasksSubmitted", C.submitted).kv("tasksRan", C.ran)
                    .kv("tasksDropped", C.dropped).kv("closureTasks", C.closures).kv("stops", C.stops).kv("clears", C.clears).kv("drains", C.drains)
                    .kv("restarts", C.restarts).kv("concurrentSubmitBursts", C.concurrentSubmits).kv("threadCreationFailuresInjected", C.startFailuresInjected).kv("programsWithExpiringWorkers", C.expiringPrograms).kv("updateCalls", C.updates).kv("stopsWithRunningTask", C.stopsWithRunningTask).kv("clearsWithRunningTask", C.clearsWithRunningTask)
-                   .kv("stopsWithWorkerInPreBlockWindow", C.stopsWithWorkerInPreBlock).kv("singleWorkerPrograms", C.singleWorkerPrograms)
+                   .kv("stopsWithWorkerInPreBlockWindow", C.stopsWithWorkerInPreBlock).kv("singleWorkerPrograms", C.singleWorkerPrograms).kv("hugeMaximumPrograms", C.hugeMaximumPrograms)
                    .kv("maxWorkersSeen", C.maxWorkersSeen).kv("nontrivialCases", C.nontrivialCases)
                    .kv("delaysCondEntry", k.condEntry.load()).kv("delaysAfterWake", k.afterWake.load()).kv("delaysOther", k.beforeLock.load() + k.afterUnlock.load() + k.beforeNotify.load() + k.threadStart.load())
                    .kv("workerThreadsCreated", k.creates.load()).kv("poolCondWaits", k.watchedCondWaits.load())
